@@ -74,7 +74,7 @@ def scan_sources():
     """forbidden tokens outside comments in every Lean source of the project"""
     hits = []
     files = glob.glob(os.path.join(LEAN_DIR, "ColaVerif", "**", "*.lean"), recursive=True)
-    files += [os.path.join(LEAN_DIR, "Driver.lean"), os.path.join(LEAN_DIR, "ColaVerif.lean")]
+    files += glob.glob(os.path.join(LEAN_DIR, "Driver*.lean")) + [os.path.join(LEAN_DIR, "ColaVerif.lean")]
     for f in files:
         try:
             src = open(f).read()
@@ -103,9 +103,9 @@ def lean_gate(ctx, module):
         raise LeanGateError(f"{path} does not elaborate:\n" + (so + se)[-3000:])
     theorems = {}
     txt = so.replace("\n  ", " ")
-    for m in re.finditer(r"'([^']+)' depends on axioms: \[([^\]]*)\]", txt):
+    for m in re.finditer(r"'(\S+)' depends on axioms: \[([^\]]*)\]", txt):
         theorems[m.group(1)] = [a.strip() for a in m.group(2).split(",") if a.strip()]
-    for m in re.finditer(r"'([^']+)' does not depend on any axioms", txt):
+    for m in re.finditer(r"'(\S+)' does not depend on any axioms", txt):
         theorems[m.group(1)] = []
     if not theorems:
         raise LeanGateError(f"{path}: no '#print axioms' output found")
